@@ -163,15 +163,17 @@ inline void for_all_strings(const std::vector<uint8_t> &a, size_t len, int part,
 // ------------------------------------------------------------------ encoder input domain
 // D_enc = all byte strings of length 0..2 over 0..255 (65 793)
 //       + length 3 over A20 (8 000)            [thorough: over all 256 values, 16 777 216]
-//       + lengths 4..66 x 6 patterns           [thorough: 4..300]
+//       + lengths 4..66, 255, 256, 257 x 6 patterns   [thorough: 4..300, 65533, 65534, 65535]
 inline void for_enc_inputs(const std::function<void(const uint8_t *, size_t)> &f0) {
   std::function<void(const uint8_t *, size_t)> f = [&](const uint8_t *p, size_t n) { if (!out_of_time()) f0(p, n); };
   std::vector<uint8_t> full = alphabet("FULL"), a3 = alphabet(thorough() ? "FULL" : "A20");
   for (size_t len = 0; len <= 2 && !g_capped; len++) for_all_strings(full, len, g_part, g_nparts, f);
   if (!g_capped) for_all_strings(a3, 3, g_part, g_nparts, f);
   size_t maxlen = thorough() ? 300 : 66;
-  for (size_t L = 4; L <= maxlen && !g_capped; L++) { if ((int)(L % (size_t)g_nparts) != g_part) continue;
-    for (int p = 0; p < kPatterns; p++) { std::vector<uint8_t> v = pattern(p, L); f(v.data(), L); } }
+  for (size_t L = 4; L <= maxlen + 3 && !g_capped; L++) { if ((int)(L % (size_t)g_nparts) != g_part) continue;
+    const size_t LL = L <= maxlen ? L : thorough() ? 65535 + (L - maxlen - 1) - 2 /* 65533..65535 */ : 254 + (L - maxlen);   // quick: + 255, 256, 257 (8-bit counter boundary)
+    if (LL > 60000 && now_s() > g_deadline) { g_capped = true; break; }
+    for (int p = 0; p < kPatterns; p++) { std::vector<uint8_t> v = pattern(p, LL); f(v.data(), LL); } }
 }
 // hostile decoder inputs derived from valid encodings: every truncation (proper prefix) of enc, and
 // (for |enc| <= 12) every single-byte substitution by an A20 value.
